@@ -152,6 +152,32 @@ def gen_cases(rng: Rng, tier):
                    t1=[rs(x) for x in rng.grid(rng.choice([7, 9, 11]), lo=rng.choice([0, -1]), scale=rng.choice([1, 2]), uniform=True)],
                    t2=[rs(x) for x in rng.grid(rng.choice([8, 10, 13]), lo=rng.choice([0, 2]), scale=rng.choice([1, 3]), uniform=True)],
                    C=[[rs(x) for x in r] for r in _curves0(rng, N, k1 * k2, "rand")[0]], ck="rand")
+    # data sets containing special observations among non-centred curves: an identically-null curve, two identical curves,
+    # a curve equal to the sample mean (their centred versions are NOT special) - dense 1-D, 2-D, multivariate
+    for which in ("null", "twin", "mean"):
+        N, m = rng.randint(4, 7), rng.randint(5, 12)
+        X = [[x + 3 for x in r] for r in _curves0(rng, N, m, "rand")[0]]
+        k = rng.randint(0, N - 1)
+        if which == "null":
+            X[k] = [Fraction(0)] * m
+        elif which == "twin":
+            X[k] = list(X[(k + 1) % N])
+        else:
+            others = [r for i, r in enumerate(X) if i != k]
+            X[k] = [sum(c) / (N - 1) for c in zip(*others)]      # equals the mean of the whole data set
+        perm = list(range(N))
+        rng.shuffle(perm)
+        yield dict(kind="gram", t=[rs(x) for x in _grid(rng, m, ties=False)], X=[[rs(x) for x in r] for r in X], s2="0",
+                   a=rs(rng.dyadic(-4, 4, 2)), perm=perm, ck="special:" + which, stand=False)
+        m1, m2 = rng.randint(2, 4), rng.randint(3, 5)
+        X2 = [[x + 2 for x in r] for r in _curves0(rng, N, m1 * m2, "rand")[0]]
+        X2[k] = [Fraction(0)] * (m1 * m2) if which == "null" else list(X2[(k + 1) % N]) if which == "twin" else \
+            [sum(c) / (N - 1) for c in zip(*[r for i, r in enumerate(X2) if i != k])]
+        yield dict(kind="gram2d", t1=[rs(x) for x in _grid(rng, m1, ties=False)], t2=[rs(x) for x in _grid(rng, m2, ties=False)],
+                   X=[[rs(x) for x in r] for r in X2], s2="0", ck="special:" + which)
+        yield dict(kind="multi", comps=[dict(t=[rs(x) for x in _grid(rng, m, ties=False)], X=[[rs(x) for x in r] for r in X]),
+                                        dict(t=[rs(x) for x in _grid(rng, m1 * m2, ties=False)], X=[[rs(x) for x in r] for r in X2])],
+                   ck="special:" + which)
     # grids far from the origin relative to their step (time stamps in seconds sampled at 1 kHz, Julian dates, large
     # offsets): all exact floats; weights and integrals must not lose the ratio |t|/step
     for lo, step in [(1700000000, Fraction(1, 2**10)), (1700000000, Fraction(1, 2**22)), (2460000, Fraction(1, 2**31)),
